@@ -994,32 +994,39 @@ def gen_C13(rng, tier):
         seqs = [[]]
         for L in range(1, 4 if tier == 'quick' else 5):
             seqs += [[a] + s for a in ('enc', 'elem', 'clone_enc', 'clone_elem')[:2 if tier == 'quick' else 4] for s in seqs if len(s) == L - 1]
-        def olazy(out, bld):
-            f = gfields(out)
-            if f.get('sat') != '1':
-                return 'lazy variable: honest forcing not satisfied'
-            steps = [st for st in f.get('out', '').split('|') if st]
-            vals = {}
-            nonzero = 0
-            for st in steps:
-                name, rest = st.split(':', 1)
-                val, delta = rest.rsplit('+', 1)
-                kind = 'enc' if name.endswith('enc') else 'elem'
-                if kind in vals and vals[kind] != val:
-                    return 'value changed on repeated forcing'
-                vals[kind] = val
-                if delta != '0':
-                    nonzero += 1
-            if nonzero > 1:
-                return 'constraints emitted more than once'
-            if 'enc' in vals and 'elem' in vals and vals['enc'] != vals['elem']:
-                return 'encoding and element of a lazy variable disagree'
-            return None
+        def mk_olazy(initial):
+            # the memo of a lazy variable: a component is computed (constraints emitted) exactly when it is first forced
+            # on the variable itself; `clone_*` forces a fresh copy of the variable's current state, so it emits iff the
+            # component is not yet memoised in the original, and leaves the original as it was (lazy.rs: Clone is deep)
+            def olazy(out, bld):
+                f = gfields(out)
+                if f.get('sat') != '1':
+                    return 'lazy variable: honest forcing not satisfied'
+                steps = [st for st in f.get('out', '').split('|') if st]
+                vals = {}
+                have = {initial}
+                for st in steps:
+                    name, rest = st.split(':', 1)
+                    val, delta = rest.rsplit('+', 1)
+                    kind = 'enc' if name.endswith('enc') else 'elem'
+                    if kind in vals and vals[kind] != val:
+                        return 'value changed on repeated forcing'
+                    vals[kind] = val
+                    if kind in have and delta != '0':
+                        return 'constraints emitted again for a component that was already forced'
+                    if kind not in have and delta == '0':
+                        return 'a component was produced without constraints'
+                    if not name.startswith('clone_'):
+                        have.add(kind)
+                if 'enc' in vals and 'elem' in vals and vals['enc'] != vals['elem']:
+                    return 'encoding and element of a lazy variable disagree'
+                return None
+            return olazy
         for sq in seqs:
-            cases.append(Case('g.lazy from=elem %s ops=%s' % (mk('e'), ','.join(sq)), builds=R, cls='lazy-from-elem:%d' % len(sq), oracle=olazy, canon=gcanon))
+            cases.append(Case('g.lazy from=elem %s ops=%s' % (mk('e'), ','.join(sq)), builds=R, cls='lazy-from-elem:%d' % len(sq), oracle=mk_olazy('elem'), canon=gcanon))
     for s in encs[:4]:
         for sq in seqs:
-            cases.append(Case('g.lazy from=enc s=%s ops=%s' % (h32(s), ','.join(sq)), builds=R, cls='lazy-from-enc:%d' % len(sq), oracle=olazy, canon=gcanon))
+            cases.append(Case('g.lazy from=enc s=%s ops=%s' % (h32(s), ','.join(sq)), builds=R, cls='lazy-from-enc:%d' % len(sq), oracle=mk_olazy('enc'), canon=gcanon))
     for _ in range(8 if tier == 'quick' else 80):
         (ca, ma), (cb, mb) = rng.choice(els), rng.choice(els)
         for op in ('add', 'sub', 'add_ref', 'sub_ref', 'add_asg', 'sub_asg', 'add_const', 'sub_const', 'add_const_asg', 'sub_const_asg', 'iseq', 'select'):
@@ -1185,6 +1192,13 @@ def gen_C15(rng, tier):
                 cases.append(Case('g.groth16 circuit=%s e=%s seed=%d' % (circ, h32(s), rng.getrandbits(30)), builds=R, cls='groth16:' + circ, oracle=ok, nomodel=True))
         for x in special_fq(rng, 2)[:6]:
             cases.append(Case('g.groth16 circuit=elligator r0=%s seed=%d' % (h32(x), rng.getrandbits(30)), builds=R, cls='groth16:elligator', oracle=ok, nomodel=True))
+        # witnesses given by other representatives of the element (projective scale, the other coset member)
+        for cls, mk in els[:6]:
+            for circ in ('compression', 'negation', 'public_element_input'):
+                cases.append(Case('g.groth16 circuit=%s %s seed=%d' % (circ, mk('e'), rng.getrandbits(30)), builds=R, cls='groth16:%s:%s' % (circ, cls), oracle=ok, nomodel=True))
+        for i in range(4):
+            cases.append(Case('g.groth16 circuit=add_assign_add a=%s b=%s seed=%d' % (h32(encs[i % len(encs)]), h32(encs[(i * 3 + 1) % len(encs)]), rng.getrandbits(30)),
+                              builds=R, cls='groth16:add_assign_add', oracle=ok, nomodel=True))
         for _ in range(3):
             cases.append(Case('g.groth16 circuit=discrete_log scalar=%s seed=%d' % (h32(rng.getrandbits(256)), rng.getrandbits(30)), builds=R, cls='groth16:discrete_log', oracle=ok, nomodel=True))
     return cases
